@@ -466,6 +466,11 @@ def bounded_progress_run(res, base, r, idx):
     opts = ['--strategy', strat, '-j', str(r.choice([1, 4])), '--timeout',
             '20', '--bv', '--fp', '--strings', '--datatypes', '--arithmetic']
     wd = os.path.join(base, f'w3_{idx}')
+    judge_progress(res, wd, text, rules, opts)
+
+
+def judge_progress(res, wd, text, rules, opts):
+    shutil.rmtree(wd, ignore_errors=True)
     run = realrun.run_ddsmt(wd, text, rules, opts=opts,
                             launcher={'monitors': ['write']}, timeout=150)
     shutil.rmtree(wd, ignore_errors=True)
@@ -482,8 +487,15 @@ def bounded_progress_run(res, base, r, idx):
         growing = len(sizes) >= 50 and all(b > a for a, b in
                                            zip(sizes, sizes[1:]))
         if repeated or growing:
+            # mechanism: the mutators that keep being accepted at the end
+            import re
+            last = re.findall(r'CHAT\] #\d+: (?:\(global\) )?([^(]+?) \(',
+                              run.stderr[-6000:])[-40:]
+            mech = '+'.join(sorted(set(x.strip().replace(' ', '-')
+                                       for x in last))) or '?'
             res.violation(
-                'unbounded-run:' + ('cycle' if repeated else 'pump'),
+                'unbounded-run:' + ('cycle' if repeated else 'pump') + ':' +
+                mech,
                 f'{len(writes)} accepted steps on an input of {n} tokens '
                 f'(bound {F}); ' + ('a written content repeats' if repeated
                                     else 'the output keeps growing'),
@@ -690,6 +702,9 @@ def replay(data):
     try:
         for k, c in enumerate(data['cases']):
             w = c['witness']
+            if 'chain' not in w and 'input' in w and 'rules' in w:
+                judge_progress(res, os.path.join(base, f'rp{k}'), w['input'],
+                               w['rules'], w['opts'])
             if 'chain' in w:
                 states = [list(ns.nodeio.parse_smtlib(t)) for t in w['chain']]
                 confirm(res, base, ns, (w['kind'], [tuple(x) for x in
